@@ -5,6 +5,9 @@ import Model.Gen
 namespace FV.Gen
 open GTree
 
+/-- the parser returns children whose text is the value it was given (its fit with the rule is C04/C05) -/
+def ParseFits (parse : Parser) : Prop := ∀ s v kids, parse s v = some kids → textL kids = v
+
 mutual
 theorem allRO_setRO : ∀ t : GTree, allRO (setRO true t) = true
   | .leaf _ _ => rfl
